@@ -47,14 +47,19 @@ def population(tier, seed):
     core_total = len(trees)
     if tier == "quick":
         idx = sorted(rng.sample(range(len(trees)), 100))
-        per_profile = 26
+        per_profile = 22
+        per_profile16 = 10
     else:
         idx = list(range(len(trees)))
         per_profile = 300
+        per_profile16 = 120
     progs = [minic.flatten_core(trees[i], "c%05d" % i, PLAT) for i in idx]
     ncore = len(progs)
     for j, prof in enumerate(PROFILES):
         progs += minic_gen.generate(seed * 1000 + j, PLAT, prof, per_profile, "g%d_" % j)
+    # the 16 bit platform (spec/p16.xml): every boundary value of int / unsigned int, including wrap-around, is explored
+    for j, prof in enumerate(PROFILES):
+        progs += minic_gen.generate(seed * 1000 + 100 + j, "p16", prof, per_profile16, "h%d_" % j)
     for p in progs:
         p["only"] = []
     return progs, ncore, core_total
@@ -65,7 +70,8 @@ ASSUMPTIONS = [
     "a fact on the `=` token is read as a fact about the assigned or the right-hand value; a known value on an operand may be the value "
     "after the implicit conversion of its parent (cppcheck's documented representation)",
     "evaluation order inside a full expression is fixed left to right; the generator never makes it observable",
-    "platform unix64 = native gcc x86-64 (second witness)",
+    "platform unix64 = native gcc x86-64 (second witness); for the generated 16 bit platform the witness is compiled from an explicit "
+    "form (exact-width native types, every operator computed in long long with conversion / range check), drivers/render.py R16",
     "generator exclusions (each demonstrated by a violation class or reported defect): plain char on unix64, mixed-sign operands that "
     "cppcheck converts differently from C, ~ of boolean / narrow operands, ++/--/op= on variables narrower than int, operators applied "
     "to two identical operands",
@@ -78,6 +84,6 @@ def main(tier, seed, replay=None):
         return minic.replay(PID, replay)
     progs, ncore, core_total = population(tier, seed)
     sizes = (30, 300, 150) if tier == "quick" else (80, 400, 1000)
-    rc, _cov = minic.run_check(PID, tier, seed, progs, PLAT, "valueflow", sizes, ncore=ncore, core_total=core_total,
+    rc, _cov = minic.run_check(PID, tier, seed, progs, "valueflow", sizes, ncore=ncore, core_total=core_total,
                                assumptions=ASSUMPTIONS)
     return rc
